@@ -193,13 +193,13 @@ def run(F, R, tier):
     R.floor("C08-P Position / PositionRange literals", n_pos, 3)
     cs = F.body("ast::comment_source_to_position_range")
     fp = [n for n in cs["_nodes"] if callee_matches(n, ["graph::Position::from_source_pos"])]
-    R.ob("C08-P", "both ends of a comment range go through the text-info conversion", len(fp) == 2 and all(peel_value(x["args"][1]).get("name") == "text_info" for x in fp),
+    R.ob("C08-P", "both ends of a comment range go through the text-info conversion", len(fp) == 2 and all(tyc(F, x["args"][1], "SourceTextInfo") for x in fp),
          "comment_source_to_position_range converts %d end(s) through Position::from_source_pos" % len(fp), cs["file"])
-    pad = [n for n in cs["_nodes"] if n.get("k") == "LetStmt" and n["pat"].get("name") == "padding"]
+    pad = [n for n in cs["_nodes"] if n.get("k") == "LetStmt" and "init" in n and peel(n["init"]).get("k") == "If" and tyc(F, n["pat"], "usize")]
     ok = False
     if pad:
         i = peel(pad[0]["init"])
-        ok = i.get("k") == "If" and expr_text(i["cond"]) == "is_specifier_quoteless" and [peel(x).get("v") for x in (peel(i["then"]).get("expr", i["then"]), peel(i["else"]).get("expr", i["else"]))] == [0, 1]
+        ok = i.get("k") == "If" and peel(i["cond"]).get("lid") == cs["body"]["params"][3].get("lid") and [peel(x).get("v") for x in (peel(i["then"]).get("expr", i["then"]), peel(i["else"]).get("expr", i["else"]))] == [0, 1]
     R.ob("C08-P", "padding is 0 for quoteless and 1 for quoted specifiers", ok, "padding definition changed", cs["file"])
 
     # ---------------- C08-A ------------------------------------------------
